@@ -1,0 +1,34 @@
+//go:build verif
+
+package hotline
+
+import (
+	"context"
+	"io"
+)
+
+// This file is only compiled with the "verif" build tag.  It exports the private entry points a
+// whole-system simulation harness needs in order to run the server over in-memory connections.
+// It adds no behaviour of its own.
+
+// VerifProcessOutbox runs the outbox dispatcher loop (never returns).
+func (s *Server) VerifProcessOutbox() { s.processOutbox() }
+
+// VerifKeepaliveHandler runs the idle ticker loop until ctx is cancelled.
+func (s *Server) VerifKeepaliveHandler(ctx context.Context) { s.keepaliveHandler(ctx) }
+
+// VerifOutbox returns the server's outbox channel.
+func (s *Server) VerifOutbox() chan Transaction { return s.outbox }
+
+// VerifHandleNewConnection runs the control-connection handler on rwc.
+func (s *Server) VerifHandleNewConnection(ctx context.Context, rwc io.ReadWriteCloser, remoteAddr string) error {
+	return s.handleNewConnection(ctx, rwc, remoteAddr)
+}
+
+// VerifHandleFileTransfer runs the transfer-connection handler on rwc.
+func (s *Server) VerifHandleFileTransfer(ctx context.Context, rwc io.ReadWriter, remoteAddr string) error {
+	return s.handleFileTransfer(context.WithValue(ctx, contextKeyReq, requestCtx{remoteAddr: remoteAddr}), rwc)
+}
+
+// VerifRateLimiterCount returns the number of per-address rate limiters the server holds.
+func (s *Server) VerifRateLimiterCount() int { return len(s.rateLimiters) }
